@@ -241,3 +241,35 @@ m("C16", "recursive-local-function-converted", "src/rules/no_local_function.rs",
   "C16.local|process_statement|param-named-f=False,body-mentions-f=True")
 m("C14", "keyword-accepted-as-name", "src/process/utils/mod.rs",
   "            | \"until\"\n", "", "C14.keyword|keyword|until")
+
+# ---- C15 : require resolution and conversion ----------------------------------------------------------
+m("C15", "lua-before-luau", "src/rules/require/path_iterator.rs",
+  "                1 => {\n                    let mut next_name = name.to_os_string();\n                    next_name.push(\".luau\");",
+  "                1 => {\n                    let mut next_name = name.to_os_string();\n                    next_name.push(\".lua\");",
+  "C15.resolve|path(init)|src/main.lua|./m",
+  more=[("                2 => {\n                    let mut next_name = name.to_os_string();\n                    next_name.push(\".lua\");",
+         "                2 => {\n                    let mut next_name = name.to_os_string();\n                    next_name.push(\".luau\");")])
+m("C15", "exists-instead-of-is_file", "src/rules/require/path_locator.rs",
+  "if self.resources.is_file(&potential_path)? {", "if self.resources.exists(&potential_path)? {",
+  "C15.resolve|path(init)|src/main.lua|./m")
+m("C15", "luau-init-not-relative-to-parent", "src/rules/require/luau_path_locator.rs",
+  "if self.luau_require_mode.is_module_folder_name(source) {", "if false {",
+  "C15.resolve|luau(init)|src/init.lua|./m")
+m("C15", "source-relative-to-requiring-file", "src/rules/require/path_locator.rs",
+  ".get_source(source_name, self.extra_module_relative_location)", ".get_source(source_name, source.parent().unwrap_or(self.extra_module_relative_location))",
+  "C15.resolve|path(init)|src/main.lua|pkg/m")
+m("C15", "self-alias-from-parent", "src/rules/require/luau_path_locator.rs",
+  "path = get_relative_parent_path(source).join(components);", "path = get_relative_parent_path(get_relative_parent_path(source)).join(components);",
+  "C15.resolve|luau(init)|src/main.lua|@self/m")
+m("C15", "convert-self-for-parent", "src/rules/require/luau_require_mode.rs",
+  "                    } else if relative_require_path.starts_with(\"../..\") {\n                        relative_require_path.components().skip(1).collect()",
+  "                    } else if relative_require_path.starts_with(\"../..\") {\n                        relative_require_path.components().skip(2).collect()",
+  "C15.convert|path->luau|src/init.lua|../../x/m")
+m("C15", "convert-self-written-as-dot", "src/rules/require/luau_require_mode.rs",
+  "                        let mut new_path = PathBuf::from(\"@self\");\n                        new_path.extend(relative_require_path.components().skip(1));",
+  "                        let mut new_path = PathBuf::from(\".\");\n                        new_path.extend(relative_require_path.components().skip(1));",
+  "C15.convert|path->luau|src/init.lua|./m")
+m("C15", "folder-file-before-extensions", "src/rules/require/path_iterator.rs",
+  "                3 => self.return_next(self.path.join(self.module_folder_name)),",
+  "                3 => self.return_next(self.path.join(self.module_folder_name).with_extension(\"lua\")),",
+  "C15.resolve|path(init)|src/main.lua|./m")
